@@ -407,4 +407,52 @@ example : OpClass.m512.isPlainMem = true ∧ OpClass.m512.holds (.mem (some rRAX
 example : ¬ AddrReg rX1 := by simp [AddrReg, rX1, kindVector, kindPseudo, kindGP]
 example : OpClass.rel8.holds (.rel 127) = true ∧ OpClass.rel8.holds (.rel 128) = false ∧ OpClass.rel8.holds (.rel (-129)) = false := by decide
 
+/-! ## Operand-list length (round 10, seeded change C06-12: the operand count narrowed to 8 bits before the comparison) -/
+
+/-- a form matches only operand lists of exactly its arity — the comparison is on the unbounded length -/
+theorem matches_length (M : Meta) (f : Form) (s : Sfx) (ops : List Operand) (h : f.matches M s ops = true) :
+    ops.length = f.arity := by
+  simp only [Form.matches, Bool.and_eq_true, beq_iff_eq] at h
+  exact h.1.2
+
+/-- `build` rejects every operand list whose length is the arity of none of the forms … -/
+theorem build_none_of_arity (M : Meta) (forms : List Form) (s : Sfx) (ops : List Operand)
+    (h : ∀ f ∈ forms, f.arity ≠ ops.length) : build M forms s ops = none := by
+  unfold build
+  have hn : forms.find? (fun f => f.matches M s ops) = none := by
+    rw [List.find?_eq_none]
+    intro f hf hm
+    exact h f hf (matches_length M f s ops (by simpa using hm)).symm
+  simp [hn]
+
+/-- … in particular every list longer than the largest arity, however long (256 + a, 65536 + a, …) -/
+theorem build_none_of_long (M : Meta) (forms : List Form) (s : Sfx) (ops : List Operand)
+    (h : ∀ f ∈ forms, f.arity < ops.length) : build M forms s ops = none :=
+  build_none_of_arity M forms s ops (fun f hf => Nat.ne_of_lt (h f hf))
+
+/-- an accepted list has exactly the arity of the form that built it -/
+theorem build_some_length (M : Meta) (forms : List Form) (s : Sfx) (ops : List Operand) (i : Instr)
+    (h : build M forms s ops = some i) : ∃ f ∈ forms, f.arity = ops.length ∧ i.operands = ops := by
+  unfold build at h
+  split at h
+  · rename_i f hf
+    have hm := List.find?_some hf
+    refine ⟨f, List.mem_of_find?_eq_some hf, (matches_length M f s ops hm).symm, ?_⟩
+    cases h
+    rfl
+  · cases h
+
+-- a form of arity 2 and a list of 256 + 2 operands whose first two would match: rejected
+example : build default [⟨1, 0, 0, 0, 2, []⟩] (0, 0) (List.replicate 258 (.rel 1)) = none :=
+  build_none_of_long _ _ _ _ (by
+    intro f hf
+    rw [List.length_replicate]
+    rw [List.mem_singleton] at hf
+    subst hf
+    decide)
+-- … although its length is the arity modulo 256
+example : (⟨1, 0, 0, 0, 2, []⟩ : Form).arity % 256 = (List.replicate 258 (Operand.rel 1)).length % 256 := by
+  rw [List.length_replicate]
+  decide
+
 end Avo.Instr
